@@ -30,6 +30,7 @@ type E3Workload struct {
 	Words     int    `json:"words"`     // approximate length of the minimized bitstream
 	Seed      uint64 `json:"seed"`
 	FailKind  int    `json:"fail_kind"`
+	Double    bool   `json:"double"` // two failing Checks of the same test in one process (normally within the same second)
 }
 
 func (wl E3Workload) Prog() *Prog {
@@ -40,6 +41,14 @@ func (wl E3Workload) Prog() *Prog {
 		p.Body = append(p.Body, &Stmt{K: SLog, LogK: 5, LogN: wl.LineLen + 2*i})
 	}
 	p.Body = append(p.Body, &Stmt{K: SFail, FKind: FailKind(wl.FailKind), Site: 0})
+	return p
+}
+
+// SecondProg: as Prog, but the very first invocation of the run (the replay of the fail file of the first Check) passes.
+func (wl E3Workload) SecondProg() *Prog {
+	p := wl.Prog()
+	last := p.Body[len(p.Body)-1]
+	p.Body[len(p.Body)-1] = &Stmt{K: SIf, Cond: &Cond{Op: OpInvGE, C: 1}, Body: []*Stmt{last}}
 	return p
 }
 
@@ -71,6 +80,11 @@ func e3Main(mode string) int {
 		fl.Seed = wl.Seed + 999
 	}
 	cr := RunCheck(wl.Prog(), RunOpt{Name: wl.Name, Dir: ".", Flags: fl, Clock: ClockPolicy{Kind: ClkFrozen}, NoBubble: true})
+	if wl.Double && mode == "save" {
+		f2 := fl
+		f2.Seed = wl.Seed + 77
+		cr = RunCheck(wl.SecondProg(), RunOpt{Name: wl.Name, Dir: ".", Flags: f2, Clock: ClockPolicy{Kind: ClkFrozen}, NoBubble: true})
+	}
 	rep := E3Report{Verdict: cr.Verdict, AfterTests: cr.AfterTests, TBFailed: cr.W.TB.failed, Escaped: cr.W.EscapedStr, FailFileNamed: cr.FailFileNamed}
 	rep.FailFilePhase = len(cr.ByPhase("failfile"))
 	rep.RandomCases = len(randomInvs(cr))
